@@ -51,6 +51,7 @@ func (i *interpreter) goStmt(fr *frame, instr *ssa.Go, fn value, args []value) {
 	}
 	g := &tgoroutine{id: len(s.gs), wake: make(chan struct{}, 1)}
 	s.gs = append(s.gs, g)
+	i.raceFork(s.cur.id, g.id)
 	go func() {
 		<-g.wake // wait until scheduled for the first time
 		if i.schAbort {
@@ -61,6 +62,7 @@ func (i *interpreter) goStmt(fr *frame, instr *ssa.Go, fn value, args []value) {
 				g.panicV = r
 			}
 			g.done = true
+			i.raceExit(g.id)
 			// hand the token to someone else; this host goroutine ends
 			i.switchFrom(g, true)
 		}()
@@ -164,6 +166,7 @@ func (i *interpreter) waitAll() {
 	}
 	i.switchFrom(me, false)
 	me.blocked = nil
+	i.raceJoinFinished(me.id)
 	for _, g := range i.sch.gs {
 		if g.panicV != nil {
 			p := g.panicV
